@@ -223,6 +223,11 @@ def _sink_calls(fn):
 def _elements_iter(e):
     """the iterator expression runs over the message's elements (either Entries variant)"""
     its = [c for c in e.calls('iter')]
+    # every adaptor between the slice and `next` keeps every element, in order: a `.take(n)`, `.skip(k)`, `.rev()`,
+    # `.filter(..)`, `.step_by(..)` or a sub-slice `elements[..n]` writes a section that is not the whole message
+    keeps_all = ('iter', 'into_iter', 'map', 'deref', 'as_slice', 'as_ref', 'borrow', 'enumerate', 'copied', 'cloned', 'by_ref', 'peekable')
+    if any(c.kind == 'call' and c.op.rsplit('::', 1)[-1] not in keeps_all for c in e.walk()):
+        return False
     return bool(its) and all(any(n.kind == 'proj' and n.info.get('n') == 'entries' for n in c.args[0].walk()) for c in its)
 
 
@@ -420,3 +425,5 @@ def r11_6(cx):
 
 
 RULES = [('R11.1', r11_1), ('R11.2', r11_2), ('R11.3', r11_3), ('R11.4', r11_4), ('R11.5', r11_5), ('R11.6', r11_6)]
+RULES.append(('R11.7', scan_rule(('rough_tlv::encoder::',))))
+FLOORS['R11.7'] = 1
